@@ -49,7 +49,7 @@ func vfL1Close(s *Server) {
 
 type c04Msg struct {
 	Policy int `json:"policy"` // 0 NONE, 1 LEADER, 2 ALL
-	Size   int `json:"size"`   // 0 small, 1 around the replication limit, 2 too large
+	Size   int `json:"size"`   // 0 small, 1 around the replication limit, 2 too large, 3 value within the limit but payload above it
 	Exp    int `json:"exp"`    // OCC only: 0 waive, 1 next, 2 stale, 3 future
 }
 
@@ -81,7 +81,7 @@ func genC04(t *rapid.T) c04Case {
 		if op.Op == "publish" {
 			k := rapid.IntRange(1, 5).Draw(t, "k")
 			for j := 0; j < k; j++ {
-				m := c04Msg{Policy: rapid.IntRange(0, 2).Draw(t, "policy"), Size: rapid.SampledFrom([]int{0, 0, 0, 0, 1, 2}).Draw(t, "size")}
+				m := c04Msg{Policy: rapid.IntRange(0, 2).Draw(t, "policy"), Size: rapid.SampledFrom([]int{0, 0, 0, 0, 1, 2, 3, 3}).Draw(t, "size")}
 				if c.OCC {
 					m.Exp = rapid.SampledFrom([]int{0, 1, 1, 1, 2, 3}).Draw(t, "exp")
 					if m.Policy == 0 {
@@ -333,6 +333,9 @@ func runC04(c c04Case, o *vfutil.Obs) *vfutil.Failure {
 					val = append(val, make([]byte, c04MaxBytes-120)...)
 				case 2:
 					val = append(val, make([]byte, c04MaxBytes+50)...)
+				case 3:
+					// the value alone is within the limit, the published payload is not
+					val = append(val, make([]byte, c04MaxBytes-20-len(val))...)
 				}
 				m.value = string(val[:len(corr)+1])
 				msg := &client.Message{Value: val, AckInbox: inbox, CorrelationId: corr, AckPolicy: c04Policy(ms.Policy)}
